@@ -3389,6 +3389,9 @@ class TensorDictBase(MutableMapping):
             )
         # fall back on split, using upper rounding
         split_size = -(self.batch_size[dim] // -chunks)
+        if split_size == 0:
+            # zero-sized dim: torch.chunk returns `chunks` empty chunks
+            return self.split([0] * chunks, dim=dim)
         return self.split(split_size, dim=dim)
 
     @overload
